@@ -53,7 +53,7 @@ Definition op_hyps_b (s : st) (o : op) : bool :=
   | VSet k _ xs | VExtend k xs => on_view s k (fun v => forallb (matches (v_tags v)) xs)
   | VInsert k _ x | VAppend k x => on_view s k (fun v => matches (v_tags v) x)
   | MSet k _ _ x => on_view s k (fun v => matches (v_tags v) x && is_node v)
-  | MGet k _ _ | MContains k _ | MDel k _ | MPop k _ _ _ | MKeys k | MValues k _ | MItems k _ =>
+  | MGet k _ _ | MContains k _ | MDel k _ | MPop k _ _ _ | MKeys k | MValues k _ | MItems k _ | MPopItem k _ =>
       on_view s k is_node
   | _ => true
   end.
